@@ -363,29 +363,42 @@ class Context:
             vm = self._current_vm
             return vm._get_property(obj, key) if vm is not None else obj.get(key)
 
+        def own_keys(obj):
+            # Own enumerable string keys: the elements of an array, typed array or
+            # string come first, in index order, then the named properties
+            from .values import JSTypedArray
+
+            if isinstance(obj, JSArray):
+                return [str(i) for i in range(len(obj._elements))] + obj.keys()
+            if isinstance(obj, JSTypedArray):
+                return [str(i) for i in range(obj.length)] + obj.keys()
+            if isinstance(obj, str):
+                return [str(i) for i in range(len(obj))]
+            return obj.keys()
+
         def keys_fn(*args):
             obj = args[0] if args else UNDEFINED
-            if not isinstance(obj, JSObject):
+            if not isinstance(obj, (JSObject, str)):
                 return JSArray()
             arr = JSArray()
-            arr._elements = list(obj.keys())
+            arr._elements = own_keys(obj)
             return arr
 
         def values_fn(*args):
             obj = args[0] if args else UNDEFINED
-            if not isinstance(obj, JSObject):
+            if not isinstance(obj, (JSObject, str)):
                 return JSArray()
             arr = JSArray()
-            arr._elements = [read(obj, k) for k in obj.keys()]
+            arr._elements = [read(obj, k) for k in own_keys(obj)]
             return arr
 
         def entries_fn(*args):
             obj = args[0] if args else UNDEFINED
-            if not isinstance(obj, JSObject):
+            if not isinstance(obj, (JSObject, str)):
                 return JSArray()
             arr = JSArray()
             arr._elements = []
-            for k in obj.keys():
+            for k in own_keys(obj):
                 entry = JSArray()
                 entry._elements = [k, read(obj, k)]
                 arr._elements.append(entry)
@@ -399,10 +412,10 @@ class Context:
                 return target
             for i in range(1, len(args)):
                 source = args[i]
-                if isinstance(source, JSObject):
+                if isinstance(source, (JSObject, str)):
                     # [[Get]] on the source, [[Set]] on the target (setters run)
                     vm = self._current_vm
-                    for k in source.keys():
+                    for k in own_keys(source):
                         if vm is not None:
                             vm._set_property(target, k, read(source, k))
                         else:
